@@ -19,15 +19,16 @@ static void gen(Case& c)
    int cls = 1 + W({70, 12, 12, 6});
    genPlantedLP(g, cls, c.lp, c.pl);
    c.recs.push_back(Rec("int").add((int) SoPlex::REPRESENTATION).add(R(0, 2)));
-   c.recs.push_back(Rec("int").add((int) SoPlex::SCALER).add(R(0, 6)));
-   c.recs.push_back(Rec("bool").add((int) SoPlex::PERSISTENTSCALING).add(R(0, 1)));
+   c.recs.push_back(Rec("int").add((int) SoPlex::SCALER).add(P(15) ? 0 : R(1, 6)));
+   c.recs.push_back(Rec("bool").add((int) SoPlex::PERSISTENTSCALING).add(P(75) ? 1 : 0));
    c.recs.push_back(Rec("int").add((int) SoPlex::SIMPLIFIER).add(W({2, 1, 1}) == 0 ? 0 : (P(50) ? 1 : 3)));
    if(P(30)) c.recs.push_back(Rec("int").add((int) SoPlex::ALGORITHM).add(R(0, 1)));
-   // source of the basis: 0 = solve, 1 = solve with iteration limit k, 2 = setBasis with a generated regular basis
-   int src = W({60, 15, 25});
+   // source of the basis: 0 = solve, 1 = solve with iteration limit k, 2 = setBasis with a generated regular basis,
+   // 3 = solve (so that the LP is scaled / presolved once) and then setBasis with a generated regular basis
+   int src = W({45, 15, 20, 20});
    c.recs.push_back(Rec("src").add(src).add(R(0, 6)));
    // choices for the generated basis: a priority order of the m+n candidates
-   if(src == 2)
+   if(src >= 2)
    {
       Rec r("order");
       int tot = c.lp.m() + c.lp.n();
@@ -66,7 +67,7 @@ static Verdict run(const Case& c)
    int src = sr ? (int) sr->i(0) : 0;
    if(src == 1) sp.setIntParam(SoPlex::ITERLIMIT, (int) sr->i(1));
    if(src != 2) sp.optimize();
-   else
+   if(src >= 2)
    {
       // greedy regular basis from the priority order (exact rank test)
       const Rec* ord = c.find("order");
@@ -135,7 +136,7 @@ static Verdict run(const Case& c)
       for(int k = 0; k < m; k++) for(int i = 0; i < m; i++) cols[k][i] = B[i][k];
       if(exactRank(cols) != m)
       {
-         if(src == 2) v.fail("internal: generated basis singular");
+         if(src >= 2) v.fail("internal: generated basis singular");
          else e.count("singular_basis_skipped");   // judged by C04
          return v;
       }
@@ -146,9 +147,18 @@ static Verdict run(const Case& c)
    bool scaledInside = SoPlexVerifAccess::isRealLPScaled(sp);
    if(!unscale && scaledInside)
    {
-      // with unscale=false the reference would be the scaled matrix; only the unscaled claim is judged here
-      e.count("unjudged.unscale_false_on_scaled_lp");
-      unscale = true;
+      // with unscale=false the queries refer to the scaled LP the solver holds: B~ has the scaled column j (read through
+      // the read-only hook) for a structural member and the unit vector for a slack
+      e.count("judged_in_scaled_space");
+      for(int k = 0; k < m; k++)
+      {
+         int id = bind[k];
+         if(id < 0) continue;
+         for(int i = 0; i < m; i++) B[i][k] = 0;
+         for(auto& en : SoPlexVerifAccess::internalColVector(sp, id)) B[en.first][k] = Q(en.second);
+      }
+      bmax = 0;
+      for(auto& r : B) bmax = std::max(bmax, maxAbs(r));
    }
    std::string cfg = std::string("rep") + std::to_string(sp.intParam(SoPlex::REPRESENTATION)) + (scaledInside ? "/scaled" : "/unscaled");
    e.count("cfg." + cfg);
